@@ -22,6 +22,7 @@ import numpy as np
 import z3
 
 from checks import lib
+from checks import solverlib_c24  # noqa: F401  (applies the local Interp.lookup work-around, see patch_engine)
 from wsym import core, kh, report
 from wsym.core import And, Implies, Not, Or, Vec, arith, cmp, is_sym, ite
 
